@@ -9,6 +9,7 @@ open Wire Chain Producer
 /-- the mempool response of this operation (if it is one) has no duplicates -/
 def Op.dupFree : Op → Prop
   | .mempool txs => txs.Nodup
+  | .mempoolDrain txs => txs.Nodup
   | _ => True
 
 theorem newTxs_not_seen {n : Node} {mempool : List Bytes} {t : Bytes} (h : t ∈ newTxs n mempool) : t ∉ n.seen := by
@@ -21,6 +22,10 @@ theorem step_once {c : Cfg} {σ σ' : RunSt} {g : Ghost} (hi : FInv c σ g) (hcr
     (hs : opStep c σ op = some σ') : σ'.mempool.Nodup ∧ (gstep c σ g op).handed.flatten.Nodup := by
   cases op with
   | mempool txs =>
+    simp only [opStep, Option.some.injEq] at hs
+    subst hs
+    exact ⟨hd, hn⟩
+  | mempoolDrain txs =>
     simp only [opStep, Option.some.injEq] at hs
     subst hs
     exact ⟨hd, hn⟩
@@ -39,7 +44,11 @@ theorem step_once {c : Cfg} {σ σ' : RunSt} {g : Ghost} (hi : FInv c σ g) (hcr
   | reap =>
     simp only [opStep, Option.some.injEq] at hs
     subst hs
-    refine ⟨hm, ?_⟩
+    have hm' : (if σ.drain = true then [] else σ.mempool).Nodup := by
+      split
+      · exact List.nodup_nil
+      · exact hm
+    refine ⟨hm', ?_⟩
     rcases reap_cases c σ.n σ.mempool with h0 | ⟨_, _, h1⟩
     · have e2 : gstep c σ g .reap = g := by unfold gstep; rw [h0]
       rw [e2]; exact hn
